@@ -50,6 +50,21 @@ Theorem C10_update_outside_refused : forall sink trigger j f bal w pa' u i,
 Proof. exact update_outside_refused. Qed.
 Print Assumptions C10_update_outside_refused.
 
+(* mixed pairs: a finalized checkpoint of an OLDER epoch offered together with a NEWER justified one (update_older_noop covers only
+   pairs that are older-or-equal in both) is refused whatever the finalized root - the current finalized root included - for every
+   state, trigger (when the pin does not object), justified pair, balances and sink; only the array's links may have been refreshed
+   by the subtree query (pa'): checkpoints, votes, balances, pin and the node set stay, nothing is pruned, the sink is not called.
+   The last hypothesis says the subtree query returned (it does on every state of a correspondence run; never-Panic is not proved)
+   or the pair is refused even earlier (justified epoch below the finalized one). *)
+Theorem C10_update_older_finalized_refused : forall sink trigger j f bal w ui,
+  w_locked w = false ->
+  fst f < fst (w_fin w) -> fst (w_just w) < fst j ->
+  (match w_pin w with Some p => trigger = fst p | None => True end) ->
+  snd (InSubtree fixed (snd (w_fin w)) (snd f) (w_pa w)) = Ok ui \/ fst j < fst f ->
+  exists pa', W_UpdateJustified fixed sink trigger j f bal w = (set_pa w pa', Err).
+Proof. exact update_older_finalized_refused. Qed.
+Print Assumptions C10_update_older_finalized_refused.
+
 (* prune: for every array state, anchor and sink behaviour (including a sink failing at any call): the nodes removed are a prefix
    of the node table (k nodes); with a sink exactly those were handed to it, once each, in table order; if the sink refused a
    node that node is the one extra call, it stays, and the prune reports the failure; a nil sink is never called *)
